@@ -78,6 +78,9 @@ func (s *DefaultMetricSearcher) searchOffsetAndRead(beginTimeMs uint64, doRead f
 		// Retrieve the start offset that is valid for given condition.
 		// If offset = -1, it indicates that current file (i) does not satisfy the condition.
 		offset, err := s.findOffsetToStart(filename, beginTimeMs, offsetStart)
+		// The cached offset only belongs to the idx file of the cached position (the first one tried);
+		// every following file has to be searched from its beginning.
+		offsetStart = 0
 		if err != nil {
 			logging.Warn("[searchOffsetAndRead] Failed to findOffsetToStart, will try next file", "beginTimeMs", beginTimeMs,
 				"filename", filename, "offsetStart", offsetStart, "err", err)
